@@ -31,6 +31,21 @@ CHECKS = {
  "C09": ("E1 structure explorer", "exhaustive product component x limit key x boundary placement x sign form over enumerated trees on the real solver; warning token sets recomputed from reported values and the applicability table",
          "Each limit key, applicable or not, is placed inside / exactly on / just outside the reported quantity of each component of each tree, so every comparison operator and every applicability entry is exercised at its boundary.",
          "values taken from a first solve() of the same system; magnitude comparison on limits; one palette per run", "3"),
+ "C10": ("E4 argument-domain explorer", "exhaustive enumeration of table shapes/values x query lattice x 7 carriers, each query a solved probe system on the real code; exact / linear / corner-range / clamp oracle",
+         "All value assignments of the small table shapes and every lattice point (on, between, outside the grid, both supply signs) are evaluated through real solves; the parameter is read back from the solved currents and voltages.",
+         "lattice, not the reals; inside 2-D cells only the corner range is demanded", "5"),
+ "C11": ("E4 argument-domain explorer", "exhaustive product of sign choices over magnitude parameters of all kinds (metamorphic solve equality + physicality) and the complete reject / accept menu of the statement on the real constructors",
+         "Every subset of magnitude parameters is negated for 16 kind/form variants and the probe system must solve identically; every listed unphysical argument must raise ValueError and its good neighbours must be accepted and usable.",
+         "finite value menus; unlisted argument types unconstrained", "5"),
+ "C12": ("E1 structure explorer", "exhaustive enumeration of per-kind parameter subsets/forms, decorated trees and all PMux priority permutations; differential oracle S vs from_file(save(S)) over every report on the real code; version-gate menu",
+         "Each enumerated system is saved, reloaded and compared report by report (keyed, 1e-9); every optional parameter is made to carry current so a dropped parameter moves a solved cell.",
+         "only applicable limits configured; one palette per run", "5"),
+ "C13": ("E4 argument-domain explorer", "exhaustive enumeration of optional-key subsets x value forms x limits, missing-key and wrong-type menus on the real TOML loader; differential oracle against the constructor call",
+         "Every subset of optional keys and every alternative TOML form is loaded and compared (params row + solved probe system) with the constructor call; every mandatory key is removed and every excluded type tried.",
+         "TOML written by toml.dumps; LinReg outside the wrong-type menu as stated", "5"),
+ "C20": ("E4 argument-domain explorer", "exhaustive grid of (w1,w2,l,t,rho,temp,tcr) on the real functions; exact-rational closed form and 12 relational laws per point",
+         "Full Cartesian product of the value menus; closed form in exact rational arithmetic on the same floats.",
+         "lattice, not the reals", "5"),
 }
 NOT_YET = {}
 ALL = ["C%02d" % i for i in range(1, 21)]
